@@ -1,8 +1,191 @@
 import PyPhysim.Model.Proto
-open PyPhysim.Proto
+import PyPhysim.Model.C11
+open PyPhysim.Proto PyPhysim.Sinr
 
--- stub: replaced when the C11 model is written
+/-!
+Line-protocol driver of the C11 model, instantiated at binary64.
+
+Complex matrices travel row-major, each scalar as two binary64 bit patterns
+(`re,im`), comma separated; real numbers as one bit pattern; sizes decimal.
+
+```
+chan K=.. Nr=.. Nt=.. NtE=..|- Ns=.. mode=ic|jp ext=0|1 big=.. pl=..|none noise=..|none pe=.. F=.. U=..
+   -> <calc_SINR: lists or error:Kind>|<calc_Q of every receiver>
+solver K=.. Nr=.. Nt=.. NtE=..|- Ns=.. ext=0|1 big=.. pl=..|none noise=..|none F=.. P=..|none WH=..
+   -> <calc_SINR>|<calc_SINR_in_dB>|<calc_sum_capacity>|<calc_Q of every receiver>
+cap <floats>   -> calc_shannon_sum_capacity
+```
+-/
+
+/-- binary64 complex number -/
+structure CF where
+  re : Float
+  im : Float
+
+instance : Zero CF := ⟨⟨0, 0⟩⟩
+instance : One CF := ⟨⟨1, 0⟩⟩
+instance : Add CF := ⟨fun a b => ⟨a.re + b.re, a.im + b.im⟩⟩
+instance : Sub CF := ⟨fun a b => ⟨a.re - b.re, a.im - b.im⟩⟩
+instance : Mul CF := ⟨fun a b => ⟨a.re * b.re - a.im * b.im, a.re * b.im + a.im * b.re⟩⟩
+instance : Div CF := ⟨fun a b =>
+  let d := b.re * b.re + b.im * b.im
+  ⟨(a.re * b.re + a.im * b.im) / d, (a.im * b.re - a.re * b.im) / d⟩⟩
+instance : BEq CF := ⟨fun a b => a.re == b.re && a.im == b.im⟩
+instance : Conj CF := ⟨fun a => ⟨a.re, -a.im⟩⟩
+instance : RC Float CF := ⟨fun x => ⟨x, 0⟩, fun z => Float.sqrt (z.re * z.re + z.im * z.im)⟩
+
+instance : Zero Float := ⟨0.0⟩
+instance : One Float := ⟨1.0⟩
+instance : RFun Float := ⟨Float.sqrt, Float.log2, Float.log10⟩
+
+def pairs : List Float → Option (List CF)
+  | [] => some []
+  | re :: im :: rest => (pairs rest).map (fun t => ⟨re, im⟩ :: t)
+  | _ => none
+
+def dash (s : String) : String := if s = "-" then "" else s
+
+def parseC (s : String) : Option (Array CF) := do
+  let fs ← parseFloatList? (dash s)
+  let ps ← pairs fs
+  some ps.toArray
+
+def parseOptFloat (s : String) : Option (Option Float) :=
+  if s = "none" then some none else (parseFloat? s).map some
+
+def parseOptFloats (s : String) : Option (Option (Array Float)) :=
+  if s = "none" then some none else (parseFloatList? (dash s)).map (fun l => some l.toArray)
+
+def showC (z : CF) : String := showFloat z.re ++ "," ++ showFloat z.im
+
+def showMat {m n : Nat} (A : Mat CF m n) : String :=
+  ",".intercalate ((List.finRange m).flatMap (fun i => (List.finRange n).map (fun j => showC (A i j))))
+
+def showLL (s : List (List Float)) : String :=
+  ";".intercalate (s.map (fun r => ",".intercalate (r.map showFloat)))
+
+def showE {β} (f : β → String) : Except PyErr β → String
+  | .ok b => f b
+  | .error e => "error:" ++ toString e
+
+def sumTo (f : Nat → Nat) : Nat → Nat
+  | 0 => 0
+  | k+1 => sumTo f k + f k
+
+/-- everything a request line carries -/
+structure Scn where
+  K : Nat
+  Nr : Array Nat
+  Nt : Array Nat
+  NtE : Array Nat
+  Ns : Array Nat
+  jp : Bool
+  ext : Bool
+  big : Array CF
+  pl : Option (Array Float)
+  noise : Option Float
+  pe : Float
+  F : Array CF
+  P : Option (Array Float)
+  U : Array CF      -- `U` of the channel call, `full_W_H` of the solver
+
+def parseScn (toks : List String) : Option Scn := do
+  let K ← (← kv toks "K").toNat?
+  let Nr ← parseNatList? (← kv toks "Nr")
+  let Nt ← parseNatList? (← kv toks "Nt")
+  let NtE ← parseNatList? (dash (← kv toks "NtE"))
+  let Ns ← parseNatList? (← kv toks "Ns")
+  let jp := (kv toks "mode") == some "jp"
+  let ext := (kv toks "ext") == some "1"
+  let big ← parseC (← kv toks "big")
+  let pl ← parseOptFloats (← kv toks "pl")
+  let noise ← parseOptFloat (← kv toks "noise")
+  let pe ← match kv toks "pe" with
+    | some s => parseFloat? s
+    | none => some 1.0
+  let F ← parseC (← kv toks "F")
+  let P ← match kv toks "P" with
+    | some s => parseOptFloats s
+    | none => some none
+  let U ← parseC (← (kv toks "U").orElse (fun _ => kv toks "WH"))
+  if Nr.length = K ∧ Nt.length = K ∧ Ns.length = K then
+    some { K, Nr := Nr.toArray, Nt := Nt.toArray, NtE := NtE.toArray, Ns := Ns.toArray, jp, ext,
+           big, pl, noise, pe, F, P, U }
+  else none
+
+namespace Scn
+variable (s : Scn)
+
+def nr (k : Fin s.K) : Nat := s.Nr.getD k.val 0
+def ns (k : Fin s.K) : Nat := s.Ns.getD k.val 0
+def ntTot : Nat := s.Nt.foldl (· + ·) 0
+def nteTot : Nat := s.NtE.foldl (· + ·) 0
+def ntAll : List Nat := s.Nt.toList ++ s.NtE.toList
+def cols : Nat := s.ntTot + s.nteTot
+/-- transmit dimension seen by precoder `j`: own antennas (IC) or all users' antennas (JP) -/
+def t (j : Fin s.K) : Nat := if s.jp then s.ntTot else s.Nt.getD j.val 0
+def colOff (j : Fin s.K) : Nat := if s.jp then 0 else offs s.Nt.toList j.val
+
+def bigRaw : Nat → Nat → CF := fun r c => s.big.getD (r * s.cols + c) 0
+def plFun : Option (Nat → Nat → Float) :=
+  s.pl.map (fun a => fun k j => a.getD (k * (s.K + s.NtE.size) + j) 1.0)
+def bigH : Nat → Nat → CF := bigPL s.bigRaw s.Nr.toList s.ntAll s.plFun
+
+/-- `get_Hkl(k, j)` (IC) / `get_Hk(k)`, `get_Hk_without_ext_int(k)` (JP) -/
+def G (k : Fin s.K) (j : Fin s.K) : Mat CF (s.nr k) (s.t j) :=
+  blockOf s.bigH (offs s.Nr.toList k.val) (s.colOff j) (s.nr k) (s.t j)
+/-- the external-interference columns of `big_H` at receiver `k` -/
+def He (k : Fin s.K) : Mat CF (s.nr k) s.nteTot :=
+  blockOf s.bigH (offs s.Nr.toList k.val) s.ntTot (s.nr k) s.nteTot
+
+def fOff (j : Nat) : Nat := sumTo (fun i => (if s.jp then s.ntTot else s.Nt.getD i 0) * s.Ns.getD i 0) j
+def V0 (j : Fin s.K) : Mat CF (s.t j) (s.ns j) :=
+  fun a b => s.F.getD (s.fOff j.val + a.val * s.ns j + b.val) 0
+def uOff (k : Nat) : Nat := sumTo (fun i => s.Nr.getD i 0 * s.Ns.getD i 0) k
+def Ucol (k : Fin s.K) : Mat CF (s.nr k) (s.ns k) :=
+  fun a b => s.U.getD (s.uOff k.val + a.val * s.ns k + b.val) 0
+def WH (k : Fin s.K) : Mat CF (s.ns k) (s.nr k) :=
+  fun a b => s.U.getD (s.uOff k.val + a.val * s.nr k + b.val) 0
+
+def chanReply : String :=
+  let V := s.V0
+  let rek : (k : Fin s.K) → Mat CF (s.nr k) (s.nr k) := fun k =>
+    if s.ext then extRek (s.He k) s.pe s.noise else baseRek (s.nr k) s.noise
+  let sinr : Except PyErr (List (List Float)) :=
+    allStreams s.ns (fun k l => chSinr (s.G k) V k (s.Ucol k) (rek k) l)
+  let q : (k : Fin s.K) → Mat CF (s.nr k) (s.nr k) := fun k =>
+    if s.ext then extQ (s.G k) V k (s.He k) s.pe s.noise else chQ (s.G k) V k s.noise
+  showE showLL sinr ++ "|" ++ ";".intercalate ((List.finRange s.K).map (fun k => showMat (q k)))
+
+def solverReply : String :=
+  let V : (j : Fin s.K) → Mat CF (s.t j) (s.ns j) := match s.P with
+    | none => s.V0
+    | some p => fullF s.V0 (fun j => p.getD j.val 1.0)
+  -- `IASolverBaseClass.noise_var`: `None` reads as `0.0`
+  let nv : Float := solNoiseVar s.noise
+  let rn : (k : Fin s.K) → Mat CF (s.nr k) (s.nr k) := fun k =>
+    if s.ext then solRek (s.nr k) nv (some (s.He k)) else solRek (e := 0) (s.nr k) nv none
+  let sinr : Except PyErr (List (List Float)) :=
+    allStreams s.ns (fun k l => solSinr (s.G k) V k (s.WH k) (rn k) l)
+  -- `calc_Q(k)` delegates to the channel object with the default `pe = 1.0`
+  let q : (k : Fin s.K) → Mat CF (s.nr k) (s.nr k) := fun k =>
+    if s.ext then extQ (s.G k) V k (s.He k) 1.0 s.noise else chQ (s.G k) V k s.noise
+  showE showLL sinr ++ "|" ++ showE showLL (sinr.map sinrIndB) ++ "|" ++
+    showE showFloat (sumCapacity sinr) ++ "|" ++
+    ";".intercalate ((List.finRange s.K).map (fun k => showMat (q k)))
+
+end Scn
+
 def handle : List String → String
+  | "chan" :: toks => match parseScn toks with
+      | some s => s.chanReply
+      | none => "bad-op"
+  | "solver" :: toks => match parseScn toks with
+      | some s => s.solverReply
+      | none => "bad-op"
+  | ["cap", xs] => match parseFloatList? (dash xs) with
+      | some l => showFloat (shannonSum l)
+      | none => "bad-op"
   | _ => "bad-op"
 
 def main : IO Unit := runDriver handle
